@@ -14,6 +14,7 @@ thread_local! {
     static EPMD_PORT: Cell<Option<u16>> = const { Cell::new(None) };
     static SYNC_POINT: RefCell<Option<Rc<dyn Fn(&'static str)>>> = const { RefCell::new(None) };
     static SCHED_POINT: RefCell<Option<Rc<dyn Fn(&'static str) -> usize>>> = const { RefCell::new(None) };
+    static HOLD_POINT: RefCell<Option<Rc<dyn Fn(&'static str) -> bool>>> = const { RefCell::new(None) };
 }
 
 /// Port that `EpmdClient::new` uses instead of 4369 on this thread.
@@ -46,6 +47,21 @@ pub async fn sched_point(tag: &'static str) {
     let callback = SCHED_POINT.with(|c| c.borrow().clone());
     let yields = callback.map_or(0, |callback| callback(tag));
     for _ in 0..yields {
+        YieldNow(false).await;
+    }
+}
+
+/// Callback asked, at a holding point and again after every yield there, whether to keep yielding.
+pub fn set_hold_point(callback: Option<Rc<dyn Fn(&'static str) -> bool>>) {
+    HOLD_POINT.with(|c| *c.borrow_mut() = callback);
+}
+
+pub async fn sched_hold(tag: &'static str) {
+    loop {
+        let callback = HOLD_POINT.with(|c| c.borrow().clone());
+        if !callback.is_some_and(|callback| callback(tag)) {
+            break;
+        }
         YieldNow(false).await;
     }
 }
